@@ -163,11 +163,14 @@ def _build_group(g):
     return properties.Group(g["name"], enabled=g["enabled"], vectors={a: _build_vector(v) for a, v in g["vectors"].items()})
 
 
-def build_class(spec, extra_attrs=None):
-    """Returns a fresh Driver subclass chain for this spec (definitions are never shared between runs)."""
-    base = Driver
-    cls = None
+def build_class(spec, extra_attrs=None, base_cls=None, skip_levels=0):
+    """Returns a fresh Driver subclass chain for this spec (definitions are never shared between runs).
+    With base_cls, the first `skip_levels` levels are taken from that already built class (a driver family)."""
+    base = base_cls or Driver
+    cls = base_cls
     for i, lvl in enumerate(spec["levels"]):
+        if i < skip_levels:
+            continue
         dct = {a: _build_group(g) for a, g in lvl["groups"].items()}
         last = i == len(spec["levels"]) - 1
         if last and spec["name_via"] == "class":
@@ -211,3 +214,24 @@ def clone_as_second_instance(spec, new_name):
     twin["name"] = new_name
     twin["class_of"] = spec["name"]
     return twin
+
+
+def derive_family_member(rng, spec, new_name, kinds, spicy=False):
+    """A second device whose class is a SUBCLASS of the first device's class (a driver family: generic camera and a model
+    that adds or overrides groups). Both are named through the constructor."""
+    import copy
+    spec["name_via"] = "ctor"
+    used_g = {g["name"] for l in spec["levels"] for g in l["groups"].values()}
+    used_v = {v["name"] for l in spec["levels"] for g in l["groups"].values() for v in g["vectors"].values()}
+    child = copy.deepcopy(spec)
+    child["name"] = new_name
+    child["subclass_of"] = spec["name"]
+    child["inherited_levels"] = len(spec["levels"])
+    groups = {}
+    n_attr = sum(len(l["groups"]) for l in spec["levels"])
+    groups[f"g{n_attr}"] = gen_group(rng, used_g, used_v, list(kinds), spicy)
+    if rng.random() < 0.4:
+        base_attrs = [a for l in spec["levels"] for a in l["groups"]]
+        groups[rng.choice(base_attrs)] = gen_group(rng, used_g, used_v, list(kinds), spicy)
+    child["levels"].append({"groups": groups})
+    return child
